@@ -128,12 +128,13 @@ def report_building():
             for t in (x1, x2, x1):
                 e.tag_updates.put(t)
             x2.value = 22                                   # changed after it was queued: the report must carry the latest value
+            x1.value = None                                 # a tag that changed TO None is a change like any other
             rep = b.collect_tag_updates()
             names = [t.name for t in rep]
             vals = {t.name: t.value for t in rep}
             if len(names) != len(set(names)):
                 return {"violated": True, "what": "a report contains a tag twice", "names": names}
-            if set(names) != {"X1", "X2"} or vals.get("X2") != 22 or vals.get("X1") != 1:
+            if set(names) != {"X1", "X2"} or vals.get("X2") != 22 or vals.get("X1") is not None:
                 return {"violated": True, "what": "a queued tag is missing from the report or carries a stale value", "report": vals}
             if e.tag_updates.qsize() != 0:
                 return {"violated": True, "what": "the queue was not drained", "left": e.tag_updates.qsize()}
